@@ -202,9 +202,9 @@ def main(run):
     refdev.install_fast_clock(0.01)
     generator_reset_check(run)
     for kind in ("default", "custom"):
-        if not run.violations:
+        if not run.concrete():
             disabled_restart_check(run, kind)
-    if not run.violations:
+    if not run.concrete():
         crashed_worker_restart_check(run)
     rng = common.Rng(run.seed)
     rounds = 2 if not run.thorough else 12
@@ -262,7 +262,7 @@ def main(run):
                     break
             finally:
                 a.stop(); b.stop(); ctrl.stop()
-        if run.violations:
+        if run.concrete():
             break
     return run.finish(rule=RULE, assumptions=[
         "Python object identity is not formalised: aliasing is decided by the translator's reading of the constructor "
